@@ -45,7 +45,7 @@ Holds(e, S, R, status) ==
     [] e.op = "subx" -> Near(v, S[e.args[2]] - S[e.args[1]], e.tol)
     [] e.op = "mul" -> IF e.floor THEN Near(v, Max(0, MulDiv(S[e.args[1]], e.num, e.den)), e.tol + 1)
                        ELSE Near(v, MulDiv(S[e.args[1]], e.num, e.den), e.tol + 1)
-    [] e.op = "mulk" -> v = S[e.args[1]] * e.k * 100
+    [] e.op = "mulk" -> v = S[e.args[1]] * e.k            \* the count is held in hundredths like every line
     [] e.op = "mull" -> Near(v, MulDiv(S[e.args[1]], R[e.args[2]], 100000), e.tol + 1)
     [] e.op = "min" -> Near(v, Min(S[e.args[1]], S[e.args[2]]), e.tol)
     [] e.op = "max" -> Near(v, Max(S[e.args[1]], S[e.args[2]]), e.tol)
